@@ -35,11 +35,6 @@ theorem search_line_ok : Gen.C01Ssdp.ssdpPrefixes.contains Gen.C01Ssdp.searchReq
 
 /-! ### the wire -/
 
-theorem startsWith_append (p r : Bytes) : startsWith (p ++ r) p = true := by
-  induction p with
-  | nil => cases r <;> rfl
-  | cons a p ih => simp [startsWith, ih]
-
 /-- a built message passes the validity gate -/
 theorem gate_build (sep sl : Bytes) (hs : List (Bytes × Bytes)) (hsl : sl ∈ Gen.C01Ssdp.ssdpPrefixes) :
     isValidPacket Gen.C01Ssdp.ssdpPrefixes (build sep sl hs) = true := by
@@ -47,14 +42,6 @@ theorem gate_build (sep sl : Bytes) (hs : List (Bytes × Bytes)) (hsl : sl ∈ G
   simp only [Bool.and_eq_true, Bool.not_eq_true', List.isEmpty_eq_false_iff, List.contains_eq_mem,
     decide_eq_true_eq, List.any_eq_true]
   refine ⟨⟨by simp, by simp [LF]⟩, sl, hsl, startsWith_append sl _⟩
-
-/-- well-formed header list, as a proposition (the run-time judge uses the Bool `wfHeaders`) -/
-theorem wfHeaders_spec {metaKeys : List Bytes} {hs : List (Bytes × Bytes)} (h : wfHeaders metaKeys hs = true) :
-    (∀ p ∈ hs, WFPair p) ∧ (∀ p ∈ hs, reserved metaKeys (lower p.1) = false)
-    ∧ distinctCI (hs.map (·.1)) = true := by
-  simp only [wfHeaders, Bool.and_eq_true, List.all_eq_true, Bool.not_eq_true', decide_eq_true_eq] at h
-  exact ⟨fun p hp => ⟨(h.1 p hp).1.1.1, (h.1 p hp).1.1.2, (h.1 p hp).2⟩,
-         fun p hp => (h.1 p hp).1.2, h.2⟩
 
 /-- **The header parser inverts the builder**: for every start line of the three kinds and every
     well-formed header list of ANY length, parsing the built datagram returns the start line, the
@@ -176,6 +163,95 @@ theorem decode_port_irrelevant (data : Bytes) (loc : Option Addr) (a b : Addr) (
 theorem adjust_identity (u : Bytes) (a : Addr) (h : ¬ (a.v6 = true ∧ a.scope ≠ 0)) :
     adjustUrl u a = some u := by
   unfold adjustUrl urlOutcome; simp [h]
+
+/-! ### the run-time judge is the theorem's reading -/
+
+/-- **The judge evaluated on the model's own observation accepts**: for a well-formed header list,
+    probes that cover every sent name (in any spelling) and the metadata names, and an adjusted
+    location inside the modelled grammar, `roundTripOk` — the predicate the driver evaluates on the
+    IMPLEMENTATION's observation — holds of the observation of the map `decode_build` speaks about.
+    So the run-time judge demands nothing the theorem does not establish for the model. -/
+theorem judge_accepts_roundtrip (sl : Bytes) (hs : List (Bytes × Bytes)) (src : Addr) (h : Hdrs) (probes : List Bytes)
+    (hrt : RoundTrip hs src h)
+    (hcov : ∀ p ∈ hs, ∃ q ∈ probes, lower q = lower p.1)
+    (hmeta : ∀ k ∈ [kHost, kPort, kRemote, kUdn, kLocOrig], ∃ q ∈ probes, lower q = lower k)
+    (hadj : ∀ p ∈ hs, lower p.1 = kLocation → allPyWs p.2 = false → ∃ u, adjVal p.2 src = .str u) :
+    roundTripOk Gen.C01Ssdp.metaKeys sl hs src sl (observe probes h) = true := by
+  have hl : ∀ k, lower (lower k) = lower k := by
+    intro k; unfold lower; simp only [List.map_map]; apply List.map_congr_left; intro b _
+    simp only [Function.comp, lowerB]; split <;> (try split) <;> omega
+  have klow : lower kHost = kHost ∧ lower kPort = kPort ∧ lower kRemote = kRemote ∧ lower kUdn = kUdn
+      ∧ lower kLocOrig = kLocOrig := by decide
+  have look : ∀ k, (∃ q ∈ probes, lower q = lower k) → (observe probes h).lookupCI k = some (getitem lower h k) :=
+    fun k hc => lookupCI_observe probes h k hc
+  have lHost := look kHost (hmeta kHost (by simp))
+  have lPort := look kPort (hmeta kPort (by simp))
+  have lRemote := look kRemote (hmeta kRemote (by simp))
+  have lUdn := look kUdn (hmeta kUdn (by simp))
+  have lOrig := look kLocOrig (hmeta kLocOrig (by simp))
+  unfold roundTripOk
+  simp only [Bool.and_eq_true, beq_self_eq_true, true_and]
+  refine ⟨⟨⟨⟨⟨?coh, ?vals⟩, ?sub⟩, ?sup⟩, ?nodup⟩, ?metas⟩
+  case coh =>
+    unfold Obs.coherent observe
+    simp only [List.all_eq_true, List.mem_map, Bool.or_eq_true, bne_iff_ne, ne_eq, beq_iff_eq]
+    rintro _ ⟨a, _, rfl⟩ _ ⟨b, _, rfl⟩
+    by_cases e : lower a = lower b
+    · right; unfold getitem; rw [e]
+    · left; exact e
+  case vals =>
+    rw [List.all_eq_true]
+    intro p hp
+    have lk := look p.1 (hcov p hp)
+    unfold valueOk
+    by_cases hloc : lower p.1 = kLocation
+    · simp only [hloc, beq_self_eq_true, if_true]
+      by_cases hw : allPyWs p.2 = true
+      · rw [lk, hrt.locBlank p hp hloc hw p.1 hloc]; simp
+      · have hw' : allPyWs p.2 = false := by simpa using hw
+        obtain ⟨ha, ho⟩ := hrt.locAdjusted p hp hloc hw'
+        obtain ⟨u, hu⟩ := hadj p hp hloc hw'
+        rw [lk, ha p.1 hloc, hu, lOrig, ho kLocOrig klow.2.2.2.2]
+        by_cases hsc : src.v6 = true ∧ src.scope ≠ 0
+        · simp [hsc.1, hsc.2]
+        · have := adjust_identity p.2 src hsc
+          unfold adjVal at hu; rw [this] at hu
+          simp only [Val.str.injEq] at hu; subst hu; simp
+    · have hne : (lower p.1 == kLocation) = false := by simpa using hloc
+      simp only [hne]
+      rw [lk, hrt.sent p hp hloc p.1 rfl]; simp
+  case sub =>
+    rw [List.all_eq_true]
+    intro n hn
+    have := hrt.namesSub n (by simpa [observe] using hn)
+    simp only [Bool.or_eq_true, List.contains_eq_mem, decide_eq_true_eq]
+    exact this
+  case sup =>
+    rw [List.all_eq_true]
+    intro p hp
+    obtain ⟨n, hn, e⟩ := hrt.namesSup p hp
+    simp only [List.contains_eq_mem, decide_eq_true_eq, observe]
+    exact List.mem_map.mpr ⟨n, hn, e⟩
+  case nodup => exact distinctCI_of_nodup (by simpa [observe] using hrt.namesNodup)
+  case metas =>
+    unfold metaOk
+    rw [lHost, lPort, lRemote, lUdn, hrt.host kHost klow.1, hrt.port kPort klow.2.1, hrt.remote kRemote klow.2.2.1,
+      hrt.udn kUdn klow.2.2.2.1]
+    simp only [beq_self_eq_true, Bool.true_and, beq_iff_eq, Option.some.injEq]
+    unfold udnOf mdGet
+    cases hs.find? (fun p => lower p.1 == ofString "usn") <;> simp
+
+/-- `decode_build` and the judge together: what the driver would say about the model itself -/
+theorem judge_accepts_decode_build (sep : Bytes) (hsep : SepOk sep) (sl : Bytes) (hsl : sl ∈ Gen.C01Ssdp.ssdpPrefixes)
+    (hs : List (Bytes × Bytes)) (hwf : wfHeaders Gen.C01Ssdp.metaKeys hs = true)
+    (loc : Option Addr) (src : Addr) (now : Int) (probes : List Bytes)
+    (hcov : ∀ p ∈ hs, ∃ q ∈ probes, lower q = lower p.1)
+    (hmeta : ∀ k ∈ [kHost, kPort, kRemote, kUdn, kLocOrig], ∃ q ∈ probes, lower q = lower k)
+    (hadj : ∀ p ∈ hs, lower p.1 = kLocation → allPyWs p.2 = false → ∃ u, adjVal p.2 src = .str u) :
+    ∃ h, decode (build sep sl hs) loc src now = .ok (sl, h)
+      ∧ roundTripOk Gen.C01Ssdp.metaKeys sl hs src sl (observe probes h) = true := by
+  obtain ⟨h, hd, hrt⟩ := decode_build sep hsep sl hsl hs hwf loc src now
+  exact ⟨h, hd, judge_accepts_roundtrip sl hs src h probes hrt hcov hmeta hadj⟩
 
 /-! ### decoding is independent of history -/
 
